@@ -114,21 +114,22 @@ impl RegexMatcher {
         // The engine stops at the first alternative that matches, so anchor the
         // end to make it try the others until the whole path is consumed ('$'
         // would also accept the position before a final newline).
+        let inner = inside_group(pattern, matches!(regex_type, RegexType::PosixExtended));
         let anchored = match regex_type {
-            RegexType::PosixExtended => {
-                format!("({})\\'", escape_unmatched_parentheses(pattern))
-            }
-            _ => format!("\\({pattern}\\)\\'"),
+            RegexType::PosixExtended => format!("({inner})\\'"),
+            _ => format!("\\({inner}\\)\\'"),
         };
         let regex = Regex::with_options(&anchored, options, &syntax)?;
         Ok(Self { regex })
     }
 }
 
-/// In a POSIX extended regular expression a ')' without a '(' before it is an
-/// ordinary character; inside the group the pattern is wrapped in it would
-/// close that group instead, so it is escaped.
-fn escape_unmatched_parentheses(pattern: &str) -> String {
+/// The pattern as it has to be written inside the group it is wrapped in:
+/// that group is the first one, so every back-reference names the group after
+/// the one it says; and in a POSIX extended regular expression a ')' without
+/// a '(' before it is an ordinary character, which would close the wrapping
+/// group instead, so it is escaped.
+fn inside_group(pattern: &str, extended: bool) -> String {
     let mut result = String::with_capacity(pattern.len());
     let mut depth = 0usize;
     let mut chars = pattern.chars().peekable();
@@ -136,8 +137,16 @@ fn escape_unmatched_parentheses(pattern: &str) -> String {
         match ch {
             '\\' => {
                 result.push(ch);
-                if let Some(escaped) = chars.next() {
-                    result.push(escaped);
+                match chars.next() {
+                    Some(digit @ '1'..='9') => {
+                        result.push_str(&(digit as u32 - '0' as u32 + 1).to_string());
+                        // A digit after a back-reference is an ordinary character.
+                        if let Some(next) = chars.next_if(char::is_ascii_digit) {
+                            result.extend(['[', next, ']']);
+                        }
+                    }
+                    Some(escaped) => result.push(escaped),
+                    None => {}
                 }
                 continue;
             }
@@ -167,9 +176,9 @@ fn escape_unmatched_parentheses(pattern: &str) -> String {
                 }
                 continue;
             }
-            '(' => depth += 1,
-            ')' if depth > 0 => depth -= 1,
-            ')' => result.push('\\'),
+            '(' if extended => depth += 1,
+            ')' if extended && depth > 0 => depth -= 1,
+            ')' if extended => result.push('\\'),
             _ => {}
         }
         result.push(ch);
